@@ -611,5 +611,29 @@ def replay(record):
         for a, b2 in zip(dt, st):
             if not torch.equal(a, b2):
                 probs.append("value not loaded")
+        # the module must still hold the very tensor objects it held before the load (same order of traversal as construction)
+        now = []
+
+        def collect_real(x):
+            if isinstance(x, torch.Tensor):
+                now.append(x)
+            elif isinstance(x, dict):
+                for v in x.values():
+                    collect_real(v)
+            elif isinstance(x, (list, tuple)):
+                for v in x:
+                    collect_real(v)
+            elif isinstance(x, OptimizerModule):
+                for k_, v in x.__dict__.items():
+                    collect_real(v)
+
+        collect_real(dst)
+        uniq, seen_ids = [], set()
+        for t_ in now:
+            if id(t_) not in seen_ids:
+                seen_ids.add(id(t_))
+                uniq.append(t_)
+        if [id(t_) for t_ in uniq] != ids:
+            probs.append(f"{sum(1 for a_, b_ in zip([id(t_) for t_ in uniq], ids) if a_ != b_) + abs(len(uniq) - len(ids))} tensor objects were replaced by load_state_dict")
         return bool(probs), "; ".join(probs) if probs else "module state round trip ok"
     return False, "unknown record kind"
